@@ -88,6 +88,10 @@ func (wr *worldRunner) runCase(prop string, p profile, r *rng.R, stats map[strin
 		info pktInfo
 	}
 	var ops []planned
+	if r.Chance(p.pInitLimit) {
+		m := world.Msg{Kind: "UpdateParams", Signer: sim.Authority, Max: rng.Pick(r, []uint32{16, 17, 64, 300, 65536})}
+		ops = append(ops, planned{world.Op{Kind: "msg", Msg: m}, pktInfo{shape: "msg/UpdateParams"}})
+	}
 	for i := 0; i < nops; i++ {
 		x := r.Intn(p.wRecv + p.wMsg + p.wDeposit + p.wQuery)
 		switch {
